@@ -12,7 +12,7 @@ TRUSTED = "Trusted base: CPython 3.12 ast + the may-raise/effect table sa/tables
 META = {
     "C01": dict(
         technique="path-sensitive dominance/dataflow over the envelope verifier (ast walker, access-path terms, event matching against primitive-level oracle); custom rules",
-        text="Decides the structural soundness argument of threshold verification for every input at once: every insertion into the counted-signer set (found by dataflow from the accept comparison) is dominated by key grammar, entry grammar for the mode (exactly the raw or the OpenPGP field set), membership in the caller's authorized list and a successful ed25519 verify event over this key, this entry and canonserialize(envelope['signed']); every accepting exit is dominated by len(set) >= the caller's threshold; the two primitives cannot return without verify() and do not swallow InvalidSignature.",
+        text="Decides the structural soundness argument of threshold verification for every input at once: every insertion into the counted-signer set (found by dataflow from the accept comparison) is dominated by key grammar, entry grammar for the mode (exactly the raw or the OpenPGP field set), membership in the caller's authorized list and a successful ed25519 verify event over this key, this entry and canonserialize(envelope['signed']); every accepting exit is dominated by len(set) >= the caller's threshold; the two primitives cannot return without verify() and do not swallow InvalidSignature; the message compared is the canonical form under an injective, history-free serializer configuration (C07-R1 re-run: shape, keywords, no caching decorator in the serializer's cone).",
         note="Decides the dominance/dataflow conditions, not the cryptography: that Ed25519 verification itself is sound is assumed (A2). Counter-based accumulators are not recognised (reported as no verdict).",
         ref="5 C01",
     ),
@@ -60,7 +60,7 @@ META = {
     ),
     "C17": dict(
         technique="path enumeration of the CLI handlers with call-event/fact matching, argparse registry extraction, entry-point statement dataflow (value of cli() must reach sys.exit), call-graph cone for signing handlers",
-        text="Every path of the verify-metadata handler that can yield exit status 0 follows a successful verify_root / verify_delegation call chosen by the untrusted file's declared type, with the files bound as the parser declares them; all other returns are non-zero constants; cli() passes the handler's value through; each of the three entry points feeds it to sys.exit; signing handlers return a zero status only after the signer returned; no exception escapes a handler after the library has accepted; module-level names the handlers read are bound before the __main__ block of cli.py runs.",
+        text="Every path of the verify-metadata handler that can yield exit status 0 follows a successful verify_root / verify_delegation call chosen by the untrusted file's declared type, with the files bound as the parser declares them; all other returns are non-zero constants; cli() passes the handler's value through; each of the three entry points feeds it to sys.exit; signing handlers return a zero status only after the signer returned, the signers return only after write_metadata_to_file returned, and a returning writer has put the canonical bytes under the name (C08-R1 re-run: a writer that swallows its own failure is reported); no exception escapes a handler after the library has accepted; module-level names the handlers read are bound before the __main__ block of cli.py runs.",
         note="The installer-generated console-script wrapper is assumed to be sys.exit(cli()) (A7; cross-checked against /venv/bin in the thorough tier). What is printed is not checked, only the status.",
         ref="5 C17",
     ),
@@ -72,7 +72,7 @@ META = {
     ),
     "C07": dict(
         technique="effective-configuration extraction of the one json.dumps call (explicit keywords merged over inspect.signature defaults), purity of the serializer's cone, message-sink dataflow through forwarding parameters; custom rules",
-        text="Decides the part of the wire-format property that is in this source: canonserialize is json.dumps(obj, sort_keys=True, indent=2, ensure_ascii=True, default separators, allow_nan=True, ...).encode(utf-8) and nothing else; it reads no ambient state; every message reaching key.sign, key.verify (directly or as first digest chunk) or the GnuPG signer is a canonserialize(...) term at every library call site, so there is exactly one serializer on both sides and the one loader reads files in binary mode with default hooks (C08-R2 re-run); canonserialize fails only where json.dumps does (no pre-check of its own turns serializable values away), and no module of the package calls an interpreter-wide setter (sys.set_int_max_str_digits, locale, ...) or patches a library module.",
+        text="Decides the part of the wire-format property that is in this source: canonserialize is json.dumps(obj, sort_keys=True, indent=2, ensure_ascii=True, default separators, allow_nan=True, ...).encode(utf-8) and nothing else; it reads no ambient state and no function it runs sits behind a caching decorator (functools caches key by ==/hash: 1, 1.0 and True would share bytes); every message reaching key.sign, key.verify (directly or as first digest chunk) or the GnuPG signer is a canonserialize(...) term at every library call site, so there is exactly one serializer on both sides and the one loader reads files in binary mode with default hooks (C08-R2 re-run); canonserialize fails only where json.dumps does (no pre-check of its own turns serializable values away), and no module of the package calls an interpreter-wide setter (sys.set_int_max_str_digits, locale, ...) or patches a library module.",
         note="Partial: determinism across hash seeds/locales, injectivity, parse-serialize fixpoint and float/surrogate rendering are properties of CPython's json module given this configuration; they are not decided (static reach ends at the configuration).",
         ref="5 C07",
     ),
